@@ -7,13 +7,15 @@ func init() {
 			Level: "model_checking",
 			Groups: []Group{{
 				PkgPath: "honnef.co/go/tools/lintcmd", PkgDir: "lintcmd", PkgName: "lintcmd",
-				Files: []string{"select.go", "analyzers.go", "lintloop.go", "../C17/lintstub.go"},
+				Files: []string{"select.go", "analyzers.go", "lintloop.go", "formats.go", "../C17/lintstub.go"},
 				Nop:   []string{"(*honnef.co/go/tools/lintcmd.sarifFormatter).Format"},
 				Entries: []Entry{
 					{Fn: "Harness_C11_selection_1", Tiers: "both", Reach: []string{"end"}, Bounds: "check lists of 1 token from 21 (all, *, category/prefix globs, names, mixed case, unknown, negations, lone '-') over 7 analyzers in 4 categories"},
 					{Fn: "Harness_C11_selection_2", Tiers: "both", Reach: []string{"end"}, Bounds: "check lists of 2 tokens (441 lists)"},
 					{Fn: "Harness_C11_inherit_d2", Tiers: "both", Reach: []string{"end"}, Bounds: "default + 2 staticcheck.conf levels (checks unset / empty / 1-2 tokens from {inherit, all, -S1000, S1000, -SA*}) + -checks (same shapes)"},
 					{Fn: "Harness_C11_exit_2", Tiers: "both", Reach: []string{"end"}, Bounds: "2 problems (5 categories incl. compile/config/staticcheck, ignored or not) x -fail lists of 0-2 tokens x formatter text|null|sarif"},
+					{Fn: "Harness_C11_formats_2", Tiers: "both", Reach: []string{"end"}, Bounds: "2 problems, each without a position / in one of two files on one of two lines, ignored or not; text vs stylish through printDiagnostics"},
+					{Fn: "Harness_C11_formats_3", Tiers: "both", Reach: []string{"end"}, Bounds: "3 problems, same choices"},
 					{Fn: "Harness_C11_lint_results2", Tiers: "both", Reach: []string{"end"}, Bounds: "result loop of (*linter).lint with the runner stubbed: 2 results, each failed / initial / skipped symbolic, 3 error kinds, its problem's check enabled or not"},
 					{Fn: "Harness_C11_lint_results3", Tiers: "thorough", Reach: []string{"end"}, Bounds: "result loop of (*linter).lint: 3 results"},
 					{Fn: "Harness_C11_selection_3", Tiers: "thorough", Reach: []string{"end"}, Bounds: "check lists of 3 tokens (9261 lists)"},
@@ -23,7 +25,7 @@ func init() {
 			}},
 			Assumptions: []string{
 				"lint result loop: the runner (loading, analysis, gob result files) is replaced by stubs returning the symbolic results; package errors are one plain error or one packages.Error with a position",
-				"kernel only: the directory walk and TOML decoding of parseConfigs, byte-level rendering of stylish/JSON/SARIF, and -show-ignored are outside the claim",
+				"kernel only: the directory walk and TOML decoding of parseConfigs, rendering of JSON/SARIF (encoding/json is outside the engine's reflect model), the byte layout of stylish output, and -show-ignored are outside the claim",
 				"sarifFormatter.Format is given an empty body (formatting is not the subject of the exit-status clause)",
 			},
 		}
